@@ -75,4 +75,6 @@ def run(ctx):
     rep.floor('R14.3', 'blind call sites', n_blind, 2 * ns)
     from rules import profile
     profile.check(ctx, rep, 'R14.P', ['sreg_start', 'slog_start', 'creg_start', 'clog_start', 'creg_finish', 'clog_finish'])
+    from rules import lclone
+    lclone.check(ctx, rep, 'R14.C')
     return rep
